@@ -87,7 +87,7 @@ def live_load(ctx, quick, rng):
     from harness import behaviours, family
     from harness.drivers import shampoo_props as sp
     from harness.drivers.C01 import G
-    hm = [(1, "mom", 0), (1, "mom", 2), (1, "wd", 1), (0, "lr", 2)]
+    hm = [(1, "mom", 0), (1, "mom", 2), (1, "wd", 1), (0, "lr", 2), (1, "freq", 1), (1, "freq", 3)]
     for name, cfg, calls, faults, moves in (
             ("1 group (2,1 blocks), freq 2 start 3, grafting, Save/Load, hyper, 5 calls", [G([1, 1, 2], [2, 2, 1], start=3, graft=True)], 5, ("fail",), hm),
             ("2 groups, freq 2/1, Save/Load, scheduler moves, 5 calls", [G([1, 1], [2, 2]), G([1], [2], freq=1, start=1, hasMom=False)], 5, (), [(0, "lr", 2), (0, "wd", 1)]),
@@ -103,7 +103,7 @@ def live_load(ctx, quick, rng):
         if r.random() < 0.4:
             gs.append(family.draw_group(r, r.choice(["m2x2", "v2x3"])))
         return gs
-    tasks = sp.gen_tasks(ctx, rng, 10 if quick else 60, 10 if quick else 30, make_groups, 8, ("fail",), ("mom", "b1", "wd", "lr"), ckpt=True)
+    tasks = sp.gen_tasks(ctx, rng, 10 if quick else 60, 10 if quick else 30, make_groups, 8, ("fail",), ("mom", "b1", "wd", "lr", "freq"), ckpt=True)
     sp.run_rt(ctx, tasks, lambda clause, p=None: True, "live_load")
     ctx.put("behaviours_with_load", sum(1 for _, b, _ in tasks if any(e["ev"] == "Load" for e in b)))
 
